@@ -9,8 +9,12 @@
    has exactly one accepted encoding.  This is stated and model-checked twice:
      - exhaustively on a toy instance of the same shape (curve y^2 = x^3 + B over GF(P), coordinates of W
        bits with P < 2^W < 2P, so that some but not all residues x also fit as x+P -- as for the real p,
-       where 2^256/p is about 1.78): AcceptSpec is the property's predicate, AcceptImpl is what the code
-       does (it reduces the coordinates modulo p inside IsOnCurve and never compares them with p);
+       where 2^256/p is about 1.78): AcceptSpec is the property's predicate and what the code does since the
+       repair (bn256 57c7a7b: coordinates >= p are rejected before the curve check).  Two wrong predicates are kept
+       for the Doc configurations only, whose counterexamples TLC must still find: AcceptOld (the code before the
+       repair: coordinates reduced modulo p inside IsOnCurve, never compared with p) and AcceptLeP (an off-by-one
+       comparison: the value p itself, a second spelling of 0, passes -- it matters exactly for points with a zero
+       coordinate, which the twist has);
      - on coordinate classes for the real curve (G1: 2 coordinates, G2: 4): canonical / +p / the value p /
        zero / 2^256-1, with or without the curve equation holding for the residues.
    TLC emits one case per class tuple with the predicted decision; the harness materialises the classes on
@@ -46,8 +50,10 @@ Marshal(pt) == IF pt = Inf THEN <<0, 0>> ELSE pt
 Decode(e) == IF e = <<0, 0>> THEN Inf ELSE <<e[1] % P, e[2] % P>>
 (* the property's acceptance predicate *)
 AcceptSpec(e) == e = <<0, 0>> \/ (e[1] < P /\ e[2] < P /\ OnCurve(e[1], e[2]))
-(* what G1.Unmarshal does: both zero -> infinity, otherwise IsOnCurve (which reduces modulo p) *)
-AcceptImpl(e) == e = <<0, 0>> \/ OnCurve(e[1] % P, e[2] % P)
+(* the code before 57c7a7b: both zero -> infinity, otherwise IsOnCurve (which reduces modulo p) *)
+AcceptOld(e) == e = <<0, 0>> \/ OnCurve(e[1] % P, e[2] % P)
+(* an off-by-one canonical check: coordinates <= p pass *)
+AcceptLeP(e) == e = <<0, 0>> \/ (e[1] <= P /\ e[2] <= P /\ OnCurve(e[1] % P, e[2] % P))
 
 RoundTrip(Acc(_)) == \A pt \in Points \cup {Inf} : Acc(Marshal(pt)) /\ Decode(Marshal(pt)) = pt
 OnlyCurve(Acc(_)) == \A e \in Enc1 : Acc(e) => (Decode(e) = Inf \/ Decode(e) \in Points)
@@ -58,14 +64,18 @@ SpecRoundTrip   == RoundTrip(AcceptSpec)
 SpecOnlyCurve   == OnlyCurve(AcceptSpec)
 SpecOneEncoding == OneEncoding(AcceptSpec)
 SpecCanonical   == Canonical(AcceptSpec)
-(* the same three for the implementation's predicate: OneEncoding/Canonical fail (finding C52-F5) *)
-ImplRoundTrip   == RoundTrip(AcceptImpl)
-ImplOnlyCurve   == OnlyCurve(AcceptImpl)
-ImplOneEncoding == phase = "case" => OneEncoding(AcceptImpl)
-(* non-vacuity of the toy instance: a point whose x also fits as x+P, and one whose x does not *)
+(* Doc configurations: the wrong predicates lose 'one encoding per element' (expected counterexamples) *)
+OldOneEncoding == phase = "case" => OneEncoding(AcceptOld)
+LePOneEncoding == phase = "case" => OneEncoding(AcceptLeP)
+(* non-vacuity of the toy instance: a point whose x also fits as x+P, one whose x does not, an encoding only the old
+   predicate accepts *)
 ToyShape == /\ \E pt \in Points : pt[1] + P < W
             /\ \E pt \in Points : pt[1] + P >= W
-            /\ \E e \in Enc1 : AcceptImpl(e) /\ ~AcceptSpec(e)
+            /\ \E e \in Enc1 : AcceptOld(e) /\ ~AcceptSpec(e)
+(* the toy instance with B = 4 has points with a zero coordinate (as the twist of the real curve has): there the value P
+   is a second spelling of 0 that only the exact comparison '< P' rejects *)
+ToyZeroShape == /\ \E pt \in Points : pt[1] = 0 \/ pt[2] = 0
+                /\ \E e \in Enc1 : AcceptLeP(e) /\ ~AcceptSpec(e)
 
 -----------------------------------------------------------------------------
 (* Part 1b: coordinate classes for the real curve. *)
@@ -76,7 +86,16 @@ IsCanonical(c) == c \in {"canon", "zero"}
 AllZero(cs) == \A i \in 1..Len(cs) : cs[i] = "zero"
 (* on: the curve equation holds for the residues of the coordinates (the harness chooses residues accordingly) *)
 AcceptClass(cs, on) == AllZero(cs) \/ (on /\ \A i \in 1..Len(cs) : IsCanonical(cs[i]))
-ImplAcceptClass(cs, on) == AllZero(cs) \/ on
+OldAcceptClass(cs, on) == AllZero(cs) \/ on               \* the code before 57c7a7b
+(* which class tuples the harness MUST materialise (binding R fails with exit 2 otherwise): every tuple with the
+   residues off the curve; with the residues on the curve, every tuple that prescribes the residue of at most one
+   coordinate (0 for "p"/"zero", 2^256-1-p for "max") -- except on G1, which has no affine point with a zero
+   coordinate (y = 0 would be a point of order 2 on a curve of odd prime order; x = 0 needs 3 to be a square
+   modulo p, which it is not: the harness verifies both facts on the real p).  Tuples prescribing two or more
+   residues are materialised where the equations happen to have a solution and counted otherwise. *)
+Forced(cs) == Cardinality({i \in 1..Len(cs) : cs[i] \in {"p", "zero", "max"}})
+ZeroForced(cs) == \E i \in 1..Len(cs) : cs[i] \in {"p", "zero"}
+Must(g, cs, on) == IF ~on THEN TRUE ELSE Forced(cs) <= 1 /\ ~(g = "G1" /\ ZeroForced(cs))
 RECURSIVE Tuples(_)
 Tuples(k) == IF k = 0 THEN {<<>>} ELSE {Append(t, c) : t \in Tuples(k - 1), c \in CoordClass}
 
@@ -104,10 +123,10 @@ Laws ==
 
 -----------------------------------------------------------------------------
 (* Case emission (binding R): one state per case. *)
-NoCase == [kind |-> "none", grp |-> "", cs |-> <<>>, on |-> FALSE, accept |-> FALSE, implAccept |-> FALSE,
+NoCase == [kind |-> "none", grp |-> "", cs |-> <<>>, on |-> FALSE, accept |-> FALSE, oldAccept |-> FALSE, must |-> FALSE,
            a |-> "", b |-> "", c |-> ""]
-EncCase(g, cs, on) == [NoCase EXCEPT !.kind = "enc", !.grp = g, !.cs = cs, !.on = on,
-                                     !.accept = AcceptClass(cs, on), !.implAccept = ImplAcceptClass(cs, on)]
+EncCase(g, cs, on) == [NoCase EXCEPT !.kind = "enc", !.grp = g, !.cs = cs, !.on = on, !.must = Must(g, cs, on),
+                                     !.accept = AcceptClass(cs, on), !.oldAccept = OldAcceptClass(cs, on)]
 LawCase(k, g, a, b, c) == [NoCase EXCEPT !.kind = k, !.grp = g, !.a = a, !.b = b, !.c = c]
 
 Groups == {"G1", "G2", "GT"}
@@ -129,9 +148,12 @@ Next == /\ phase = "start"
         /\ phase' = "case"
 Spec == Init /\ [][Next]_vars
 
-(* the decision table is consistent: the implementation's predicate accepts a superset, and the difference is exactly
-   the on-curve tuples with a non-canonical coordinate *)
+(* the decision table is consistent: the old predicate accepted a superset, and the difference is exactly the on-curve
+   tuples with a non-canonical coordinate; every coordinate position of both groups has a must-materialise tuple in which
+   that coordinate alone is the value p (the boundary of the canonical check) *)
 TableOK == case.kind = "enc" =>
-             /\ (case.accept => case.implAccept)
-             /\ ((case.implAccept /\ ~case.accept) <=> (case.on /\ ~AllZero(case.cs) /\ \E i \in 1..Len(case.cs) : ~IsCanonical(case.cs[i])))
+             /\ (case.accept => case.oldAccept)
+             /\ ((case.oldAccept /\ ~case.accept) <=> (case.on /\ ~AllZero(case.cs) /\ \E i \in 1..Len(case.cs) : ~IsCanonical(case.cs[i])))
+BoundaryCovered == \A i \in 1..4 : \E k \in Cases :
+                     k.kind = "enc" /\ k.grp = "G2" /\ k.on /\ k.must /\ ~k.accept /\ k.cs[i] = "p" /\ \A j \in (1..4) \ {i} : k.cs[j] = "canon"
 =============================================================================
